@@ -172,10 +172,14 @@ Definition reraise (e : exn_st) : exn_st :=
 Definition value_raises (e : exn_st) : exn_st :=
   pushes [FInt I_raise_if_error; FInt I_value] (reraise e).
 
-(* async_task.py 219-223: throw(error._type_, error, error._traceback) when the error has _task,
-   else throw(type(error), error) which keeps the current __traceback__ *)
+(* async_task.py 232-236: throw(error._type_, error, error._traceback) when the error has _task,
+   else throw(type(error), error), which does NOT keep the current __traceback__ *)
 Definition throw_into (e : exn_st) : exn_st :=
-  match pr e with Prepared s true => mkE s (pr e) | _ => e end.
+  match pr e with
+  | Prepared s true => mkE s (pr e)
+  | _ => mkE [] (pr e)   (* generator.throw(type, value) without a traceback argument: CPython 3.12 sets
+                            value.__traceback__ to None, the frames the instance had are gone *)
+  end.
 
 Inductive how := HAwait | HSync.   (* "yield child.asynq()"  |  "child()" inside the body *)
 Inductive mode :=
@@ -363,17 +367,22 @@ Inductive fkind :=
 
 (* where the instance comes from *)
 Inductive esrc :=
-| EOfTask (ms : list (mode * how)) (b : bottom). (* the error the failed task lvl_0 ended with (task.error()) *)
-(* Not modelled: an instance no task has prepared (never raised, or prepared by qcore outside any
-   task).  The first reader task that fails with it prepares it, set_error had nothing to save,
-   and AsyncTask._continue_on_generator throws it into the generator without its traceback
-   (work/s9-C18-finding.md). *)
+| EOfTask (ms : list (mode * how)) (b : bottom)  (* the error the failed task lvl_0 ended with (task.error()) *)
+| EPrepared       (* an instance raised, caught and passed to qcore.prepare_for_reraise at PREP_SITE, in no task *)
+| EFresh.         (* an instance that was never raised: no __traceback__, no _traceback             *)
+(* The last two are instances no task has prepared; the model says what the code does with them,
+   which is not what the statement asks for (known findings, work/s9-C18-finding.md): set_error has
+   nothing to save for a fresh instance, the first reader task that fails with it prepares it and
+   every later observer gets that reader's frames; and [throw_into] loses the frames a _task-less
+   instance had. *)
 
 Definition PROVIDER : frame := FHelper (-2).
 
 Definition shared_exn (s : esrc) : option exn_st :=
   match s with
   | EOfTask ms b => task_result 0 ms b
+  | EPrepared => Some prepared_exn
+  | EFresh => Some fresh_exn
   end.
 
 (* the instance as it is when set_error receives it: Future._compute caught it coming out of the
